@@ -131,3 +131,28 @@ pub proof fn lemma_seen_all(a: &AhoCorasick, m: Seq<MatchType>, v: Seq<char>, p:
     ensures seen(a, m, v, ac_hits(a, v).len() as int, p) == pat_hit(a, m, v, p),
 {
 }
+
+// ---- C17 at expression level: reordering the operands of a group
+pub proof fn lemma_group_reorder(op: BoolSym, g1: Vec<Expression>, g2: Vec<Expression>, f: Seq<int>, ids: Ids, d: DocM)
+    requires
+        op == BoolSym::And || op == BoolSym::Or,
+        g1@.len() == g2@.len() && g2@.len() == f.len(),
+        forall|i: int| 0 <= i < f.len() ==> 0 <= #[trigger] f[i] < g1@.len() && g2@[i] == g1@[f[i]],
+        forall|j: int| 0 <= j < g1@.len() ==> #[trigger] covers(f, j),
+    ensures
+        op == BoolSym::Or ==> sem3(Expression::BooleanGroup(op, g2), ids, d) == sem3(Expression::BooleanGroup(op, g1), ids, d),   // P:C17
+        op == BoolSym::And ==> (sem3(Expression::BooleanGroup(op, g2), ids, d) == SolverResult::True)
+            == (sem3(Expression::BooleanGroup(op, g1), ids, d) == SolverResult::True),   // P:C17
+{
+    let e1 = Expression::BooleanGroup(op, g1);
+    let e2 = Expression::BooleanGroup(op, g2);
+    let s1 = sems(g1, ids, d, e1);
+    let s2 = sems(g2, ids, d, e2);
+    reveal_with_fuel(has_ident, 2);
+    assert(reordering(s1, s2, f)) by {
+        assert forall|i: int| 0 <= i < f.len() implies 0 <= #[trigger] f[i] < s1.len() && s2[i] == s1[f[i]] by {
+            assert(g2@[i] == g1@[f[i]]);
+        }
+    }
+    if op == BoolSym::Or { lemma_or3_reorder(s1, s2, f); } else { lemma_and3_truth_reorder(s1, s2, f); }
+}
